@@ -1,4 +1,5 @@
 import MicroHttp.Props.C16
+import MicroHttp.Props.Tables
 #print axioms MicroHttp.C16.method_tryFrom_iff
 #print axioms MicroHttp.C16.method_tryFrom_none_iff
 #print axioms MicroHttp.C16.method_roundtrip
@@ -13,3 +14,11 @@ import MicroHttp.Props.C16
 #print axioms MicroHttp.C16.absPath_absolute_form
 #print axioms MicroHttp.C16.absPath_other
 #print axioms MicroHttp.C16.absPath_shape
+#print axioms MicroHttp.Tables.method_raw
+#print axioms MicroHttp.Tables.method_tryFrom
+#print axioms MicroHttp.Tables.version_raw
+#print axioms MicroHttp.Tables.version_tryFrom
+#print axioms MicroHttp.Tables.media_as_str
+#print axioms MicroHttp.Tables.media_tryFrom
+#print axioms MicroHttp.Tables.status_raw
+#print axioms MicroHttp.Tables.http_scheme_prefix
